@@ -174,6 +174,13 @@ func (e *Enc) define(name, sortName, term string) string {
 	if e.inl != nil {
 		name = e.inl.prefix + name
 	}
+	if strings.Contains(term, "(ite ") {
+		// solvers expand define-fun as a macro, and `ite` is rejected inside quantifier patterns:
+		// a conditional term gets a declared name and a defining equation instead
+		e.emit(fmt.Sprintf("(declare-const %s %s)", q(name), qs(sortName)))
+		e.emit(fmt.Sprintf("(assert (= %s %s))", q(name), term))
+		return q(name)
+	}
 	e.emit(fmt.Sprintf("(define-fun %s () %s %s)", q(name), qs(sortName), term))
 	return q(name)
 }
@@ -622,6 +629,32 @@ func (e *Enc) patAlias(term, sortName string) string {
 	return a
 }
 
+// sliceHeapWF: every slice header stored in a heap version is well formed (contracts read such
+// headers without going through an SSA load, which is where the other type facts are attached).
+func (e *Enc) sliceHeapWF(h Heap, term string) {
+	if h.Elem != 2 {
+		return
+	}
+	e.nquant++
+	qa, qb := fmt.Sprintf("qw!%d", e.nquant), fmt.Sprintf("qx!%d", e.nquant)
+	wf := func(sel string) string {
+		return fmt.Sprintf("(and (>= (s.len %s) 0) (>= (s.cap %s) (s.len %s)) (>= (s.off %s) 0) (>= (s.arr %s) 0))", sel, sel, sel, sel, sel)
+	}
+	switch h.Kind {
+	case HField, HCell, HChan:
+		sel := "(select " + term + " " + qa + ")"
+		e.fact(fmt.Sprintf("(forall ((%s Int)) (! %s :pattern (%s)))", qa, wf(sel), sel))
+	case HElem:
+		sel := "(select (select " + term + " " + qa + ") " + qb + ")"
+		e.fact(fmt.Sprintf("(forall ((%s Int) (%s Int)) (! %s :pattern (%s)))", qa, qb, wf(sel), sel))
+	case HMapV:
+		ks := strings.TrimPrefix(h.Sort, "(Array Int (Array ")
+		ks = ks[:strings.Index(ks, " ")]
+		sel := "(select (select " + term + " " + qa + ") " + qb + ")"
+		e.fact(fmt.Sprintf("(forall ((%s Int) (%s %s)) (! %s :pattern (%s)))", qa, qb, ks, wf(sel), sel))
+	}
+}
+
 // emitEntryClosed: the heap the function is entered with is closed — an object that exists on
 // entry only refers to objects that exist on entry. (Cells above the entry allocation mark are
 // unconstrained: code without a body may later hand out objects living there.)
@@ -644,6 +677,7 @@ func (e *Enc) emitEntryClosed() {
 			continue
 		}
 		cur := e.entry.get(h)
+		e.sliceHeapWF(h, cur)
 		val := func(t string) string {
 			if h.Elem == 2 {
 				return "(s.arr " + t + ")"
@@ -1108,6 +1142,7 @@ func (e *Enc) encodeBlock(b *ssa.BasicBlock) {
 			prev := st.get(h)
 			nv := e.declare(e.freshName(fmt.Sprintf("loop%d$%s", li.ordinal, k)), h.Sort)
 			st.set(h, nv)
+			e.sliceHeapWF(h, nv)
 			if mods.m[k] == ModFresh && strings.HasPrefix(h.Sort, "(Array Int") {
 				// only objects allocated inside the loop are written: older objects keep their content
 				qv := fmt.Sprintf("qr!%d", e.nfresh)
@@ -1588,6 +1623,14 @@ func (e *Enc) encodeInstr(in ssa.Instruction, st *State) {
 				if sl, ok := in.Type().Underlying().(*types.Slice); ok {
 					if b, ok := sl.Elem().Underlying().(*types.Basic); ok && b.Kind() == types.Uint8 {
 						e.fact("(= (s.len " + v + ") (str.len " + e.term(in.X) + "))")
+						// the ghost view content(bytes) of the specs: []byte(s) holds s
+						if _, ok := e.ctx.contracts.GFuncs["content"]; ok {
+							e.ctx.declareUF("content", []string{"Slice"}, "String")
+							if e.usedGhost != nil {
+								e.usedGhost["content"] = true
+							}
+							e.fact("(= (" + q("g$content") + " " + v + ") " + e.term(in.X) + ")")
+						}
 					}
 				}
 			}
